@@ -120,16 +120,41 @@ static C04_WEIGHTS: &[(u16, u32)] = &[
     (m::REHASH_SETUP, 6),
 ];
 
+static C04_TABLE_WEIGHTS: &[(u16, u32)] = &[
+    (t::INSERT_UNIQUE, 18),
+    (t::INSERT_DUP, 3),
+    (t::FIND, 2),
+    (t::FIND_MUT, 2),
+    (t::FIND_ENTRY, 10),
+    (t::ENTRY, 12),
+    (t::RETAIN, 5),
+    (t::EXTRACT_IF, 5),
+    (t::DRAIN, 3),
+    (t::CLEAR, 3),
+    (t::RESERVE, 4),
+    (t::TRY_RESERVE, 2),
+    (t::SHRINK_TO_FIT, 3),
+    (t::SHRINK_TO, 3),
+    (t::CLONE_SWAP, 6),
+    (t::FILL_TO_CAPACITY, 4),
+    (t::REMOVE_RUN, 6),
+    (t::REMOVE_ALL_BUT, 2),
+    (t::REHASH_SETUP, 6),
+    (t::REMOVE_NTH, 3),
+    (t::ITER, 2),
+    (t::ITER_HASH, 1),
+];
+
 fn c04_strategy(tier: Tier) -> BoxedStrategy<Case> {
     use proptest::prelude::*;
+    let n = if tier == Tier::Quick { 40 } else { 80 };
     (
-        map_case_strategy(MapGen {
-            prop: 4,
-            weights: C04_WEIGHTS,
-            max_ops: if tier == Tier::Quick { 40 } else { 80 },
-            generic_pct: 15,
-            plain_pct: 40,
-        }),
+        union2(
+            map_case_strategy(MapGen { prop: 4, weights: C04_WEIGHTS, max_ops: n, generic_pct: 15, plain_pct: 40 }),
+            3,
+            table_case_strategy(TableGen { prop: 4, weights: C04_TABLE_WEIGHTS, max_ops: n, generic_pct: 15, plain_pct: 40 }),
+            1,
+        ),
         0u64..65536,
     )
         .prop_map(|(mut c, frac)| {
@@ -366,12 +391,39 @@ static C03_TABLE_WEIGHTS: &[(u16, u32)] = &[
     (t::REMOVE_NTH, 3),
 ];
 
+static C03_SET_WEIGHTS: &[(u16, u32)] = &[
+    (st::INSERT, 10),
+    (st::INSERT_RANGE, 8),
+    (st::REPLACE, 6),
+    (st::REMOVE, 8),
+    (st::GET_OR_INSERT, 3),
+    (st::ENTRY, 5),
+    (st::SWAP, 6),
+    (st::ASSIGN, 10),
+    (st::OPERATORS, 5),
+    (st::RETAIN, 4),
+    (st::EXTRACT_IF, 5),
+    (st::DRAIN, 5),
+    (st::ITER, 6),
+    (st::CLEAR, 2),
+    (st::SHRINK_TO_FIT, 3),
+    (st::CLONE, 6),
+    (st::FILL_TO_CAPACITY, 2),
+    (st::REMOVE_RUN, 4),
+    (st::REBUILD, 2),
+];
+
 fn c03_strategy(tier: Tier) -> BoxedStrategy<Case> {
     let n = if tier == Tier::Quick { 100 } else { 300 };
     union2(
-        map_case_strategy(MapGen { prop: 3, weights: C03_MAP_WEIGHTS, max_ops: n, generic_pct: 20, plain_pct: 0 }),
-        3,
-        table_case_strategy(TableGen { prop: 3, weights: C03_TABLE_WEIGHTS, max_ops: n, generic_pct: 20, plain_pct: 0 }),
+        union2(
+            map_case_strategy(MapGen { prop: 3, weights: C03_MAP_WEIGHTS, max_ops: n, generic_pct: 20, plain_pct: 0 }),
+            3,
+            table_case_strategy(TableGen { prop: 3, weights: C03_TABLE_WEIGHTS, max_ops: n, generic_pct: 20, plain_pct: 0 }),
+            1,
+        ),
+        4,
+        set_case_strategy(SetGen { prop: 3, weights: C03_SET_WEIGHTS, max_ops: n, generic_pct: 20, plain_pct: 0 }),
         1,
     )
 }
@@ -739,14 +791,26 @@ static C14_WEIGHTS: &[(u16, u32)] = &[
     (m::REMOVE_NTH, 3),
 ];
 
+static C14_SET_WEIGHTS: &[(u16, u32)] = &[
+    (st::ENTRY, 30),
+    (st::INSERT, 8),
+    (st::REMOVE, 6),
+    (st::FILL_TO_CAPACITY, 10),
+    (st::REMOVE_RUN, 6),
+    (st::SHRINK_TO_FIT, 3),
+    (st::GET, 2),
+    (st::CLEAR, 1),
+    (st::SWAP, 2),
+];
+
 fn c14_strategy(tier: Tier) -> BoxedStrategy<Case> {
-    map_case_strategy(MapGen {
-        prop: 14,
-        weights: C14_WEIGHTS,
-        max_ops: if tier == Tier::Quick { 100 } else { 300 },
-        generic_pct: 20,
-        plain_pct: 30,
-    })
+    let n = if tier == Tier::Quick { 100 } else { 300 };
+    union2(
+        map_case_strategy(MapGen { prop: 14, weights: C14_WEIGHTS, max_ops: n, generic_pct: 20, plain_pct: 30 }),
+        5,
+        set_case_strategy(SetGen { prop: 14, weights: C14_SET_WEIGHTS, max_ops: n, generic_pct: 20, plain_pct: 30 }),
+        1,
+    )
 }
 
 fn c14_nontrivial(_c: &Case, o: &Outcome) -> bool {
@@ -757,9 +821,9 @@ pub static C14: PropDef = PropDef {
     id: "C14",
     rule: "states biased to len()==capacity(), tombstone-saturated and the unallocated singleton x key present/absent \
            x API (entry, entry_ref, raw_entry, raw_entry_mut via from_key / from_key_hashed_nocheck / from_hash, \
-           rustc_entry) x method chains; the chain's effect and return values are compared with the equivalent plain \
-           get/insert/remove on the model; non-trivial = an entry was created at growth_left == 0 or the key's probe \
-           window held a tombstone. HashSet::entry is checked by C07.",
+           rustc_entry; one sixth of the cases HashSet::entry) x method chains; the chain's effect and return values are \
+           compared with the equivalent plain get/insert/remove on the model; non-trivial = an entry was created at \
+           growth_left == 0 or the key's probe window held a tombstone.",
     level: "exploration",
     cases_quick: 60_000,
     cases_thorough: 1_500_000,
